@@ -104,7 +104,9 @@ var builtinOrders = map[string]func(a, b string) int{
 
 const numPrefixes = `KMGTPEZY`
 
-var numRe = regexp.MustCompile(`([0-9.]+)([k` + numPrefixes + `]i?)?[bB]?`)
+// numRe matches a number with an optional prefix. A sign counts only
+// at the very beginning of the string, directly before the digits.
+var numRe = regexp.MustCompile(`(^[-+])?([0-9.]+)([k` + numPrefixes + `]i?)?[bB]?`)
 
 // parseNum is a fuzzy number parser. It supports common patterns,
 // such as SI prefixes.
@@ -118,17 +120,17 @@ func parseNum(x string) (float64, error) {
 	// Try a suffixed number.
 	subs := numRe.FindStringSubmatch(x)
 	if subs != nil {
-		v, err := strconv.ParseFloat(subs[1], 64)
+		v, err := strconv.ParseFloat(subs[1]+subs[2], 64)
 		if err == nil {
 			exp := 0
-			if len(subs[2]) > 0 {
-				pre := subs[2][0]
+			if len(subs[3]) > 0 {
+				pre := subs[3][0]
 				if pre == 'k' {
 					pre = 'K'
 				}
 				exp = 1 + strings.IndexByte(numPrefixes, pre)
 			}
-			iec := strings.HasSuffix(subs[2], "i")
+			iec := strings.HasSuffix(subs[3], "i")
 			if iec {
 				return v * math.Pow(1024, float64(exp)), nil
 			}
